@@ -28,3 +28,10 @@ Definition api_c05_fl_report (v : val) : val :=
 (* q -> its SECT forms and W2F images (for the header-based attribution) *)
 Definition api_c05_forms (v : val) : val :=
   VL [ofSS (sect_forms (getS v)); ofSS (w2f_images (getS v))].
+
+(* [x; [sect; w2f; orf]; peptides] -> [p is a form, under the switches, of a product of the look-behind-relaxed
+   digestion (signature of D14b-lookbehind for flagged runs) ...] *)
+Definition api_c05_fl_realizable_relaxed2 (v : val) : val :=
+  let x := cv_input (argn 0 v) in
+  let m := fl_relaxed2_set x (c05_flags (argn 1 v)) in
+  VL (map (fun p => ofB (mem_seq (getS p) m)) (getL (argn 2 v))).
